@@ -804,6 +804,22 @@ func dischargeSlice(e *Env, s panicSite) (string, bool) {
 			return "x[:0] is always in range (make(T, 0))", true
 		}
 	}
+	// (e') x[strings.Index/LastIndex(x, sep)+1:] with a non-empty constant sep: the index is in [-1, len(x)-len(sep)],
+	// so the bound is in [0, len(x)]
+	if sl.High == nil && sl.Low != nil {
+		if bo, ok := sl.Low.(*ssa.BinOp); ok && bo.Op == token.ADD {
+			if k, ok := constInt(bo.Y); ok && k >= 1 {
+				if c, ok := bo.X.(*ssa.Call); ok {
+					n := callName(c.Common())
+					if (n == "strings.LastIndex" || n == "strings.Index") && len(c.Call.Args) == 2 && (c.Call.Args[0] == sl.X || sameLoad(c.Call.Args[0], sl.X)) {
+						if sep, ok := constString(c.Call.Args[1]); ok && int64(len(sep)) >= k {
+							return fmt.Sprintf("(e') x[strings.%s(x, %q)+%d:]: the bound lies in [0, len(x)]", n[8:], sep, k), true
+						}
+					}
+				}
+			}
+		}
+	}
 	lo := int64(0)
 	if sl.Low != nil {
 		k, ok := constInt(sl.Low)
@@ -1035,7 +1051,9 @@ func c12Recursion(e *Env) {
 	on := map[*callgraph.Node]bool{}
 	var stack []*callgraph.Node
 	var sccs [][]*callgraph.Node
-	inMod := func(n *callgraph.Node) bool { return n.Func != nil && e.P.InModule(n.Func) && !isGeneratedFn(e.P, rootFn(n.Func)) }
+	inMod := func(n *callgraph.Node) bool {
+		return n.Func != nil && e.P.InModule(n.Func) && !isGeneratedFn(e.P, rootFn(n.Func))
+	}
 	var strong func(v *callgraph.Node)
 	strong = func(v *callgraph.Node) {
 		idx[v], low[v] = index, index
